@@ -559,6 +559,15 @@ def _assist_model(repo, order='fwd'):
     def level_rest(p):
         """how Project.norm_package reads a package argument: number of leading dots, dotted rest"""
         return len(p) - len(p.lstrip('.')), p.strip('.')
+    # the cursor line is selected the way the parser numbers lines: a form feed is white space, \r\n is one line end
+    for text, pos, want in (('a = 1\n\x0c\nxy = abc', (3, 8), 'abc'), ('a = 1\r\nxy = abc\r\n', (2, 8), 'abc'),
+                            ('a = 1\n\nxy = abc\n', (3, 8), 'abc')):
+        st.reset()
+        st.marked_name = st.name_node('abc' + M, table)
+        r, exc = st.assist(text, pos)
+        rec('prefix', 'prefix on line %d of %r' % (pos[0], text), not exc and pair(r) and r[0] == want,
+            'with the source %r and the cursor at %s the prefix must be %r (lines are numbered as the parser numbers them); got %s'
+            % (text, pos, want, exc or (r[0] if pair(r) else r)), 'cursor line selected by parser line numbers')
     for left, want_pkg in (('from pkg.su', (0, 'pkg')), ('from pkg su', None), ('from .rel', (1, '')), ('from ', (0, '')),
                            ('from ..rel.x', (2, 'rel')), ('    from pkg.sub.m', (0, 'pkg.sub')), ('from .', (1, '')), ('from ..', (2, '')),
                            ('from ...al', (3, '')), ('from ....', (4, '')), ('from ...pk.mo', (3, 'pk')), ('from .a.b.c', (1, 'a.b'))):
